@@ -160,6 +160,20 @@ func isNonNilInit(v ssa.Value) bool {
 // evalInitBig evaluates init-time *big.Int expressions built from constants.
 func evalInitBig(v ssa.Value) (*big.Int, bool) {
 	switch x := v.(type) {
+	case *ssa.UnOp:
+		// load of another package-level variable initialised earlier (possibly in another package's init)
+		if g, ok := x.X.(*ssa.Global); ok && g.Pkg != nil {
+			if initFn := g.Pkg.Func("init"); initFn != nil {
+				for _, b := range initFn.Blocks {
+					for _, ins := range b.Instrs {
+						if st, ok := ins.(*ssa.Store); ok && st.Addr == ssa.Value(g) {
+							return evalInitBig(st.Val)
+						}
+					}
+				}
+			}
+		}
+		return nil, false
 	case *ssa.Call:
 		callee := x.Common().StaticCallee()
 		if callee == nil {
@@ -267,9 +281,20 @@ func (c *Ctx) globalLoc(g *ssa.Global) *Loc {
 	}
 	c.heapName(name, c.sortOf(el))
 	gi := c.prog.globals()[g]
+	if _, loaded := c.prog.SSAPkgs[g.Pkg.Pkg.Path()]; !loaded && gi == nil {
+		// variable of a dependency package (no bodies loaded): exported error values such as io.EOF are assumed to be
+		// non-nil constants (A-GLOBALCONST for dependencies, listed in the evidence)
+		if types.Identical(el, types.Universe.Lookup("error").Type()) {
+			gi = &globalInfo{constant: true, nonNil: true}
+			c.trustedUsed["dependency error variable assumed constant and non-nil: "+g.Pkg.Pkg.Path()+"."+g.Name()] = true
+		}
+	}
 	if gi != nil && gi.constant {
 		if c.constGlobals == nil {
 			c.constGlobals = map[string]*globalInfo{}
+		}
+		if _, known := c.constGlobals[name]; !known {
+			c.grew = true // one more pass, so that no havoc before the first read touches this constant
 		}
 		c.constGlobals[name] = gi
 	}
